@@ -34,7 +34,7 @@ def ring_jobs() -> List[tuple]:
     ring store that unit_loop(run_paged_loop_impl, w, 1) proves"""
     from props import ring_units
 
-    js: List[tuple] = [(ring_units.unit_ring_to_list, ()), (ring_units.unit_ring_lemma, ()), (ring_units.unit_memory_run_glue, ()), (ring_units.unit_build_run_result, ())]
+    js: List[tuple] = [(ring_units.unit_ring_to_list, ()), (ring_units.unit_ring_lemma, ()), (ring_units.unit_memory_run_glue, ()), (ring_units.unit_build_run_result, ()), (ring_units.unit_get_last_ops, ())]
     js += [(ring_units.unit_generic_loop_dispatch, (w,)) for w in C01c.WIDTHS]
     return js
 
@@ -42,7 +42,8 @@ def ring_jobs() -> List[tuple]:
 def ring_report(rep: Report) -> None:
     add_native_functions(rep, ('last_ops_ring_to_list',), 'ring content invariant ring[k % len] == address of op k for the last min(writes, len) ops (precondition; carried through a run by the ghost lemma ring_lemma:* from the per-op store proved by unit_loop(run_paged_loop_impl, w, 1)) => the list has min(writes, len) entries, entry j = address of op writes - min + j; loop invariant on the list built so far; frame; reference balance; ring subscripts in bounds; width independent (64-bit index arithmetic, wrap-around kept)')
     rep.assume('[A] CPython API (last_ops_ring_to_list): PyList_New(0) returns a new empty list or NULL with an error; PyLong_FromUnsignedLongLong returns a new int of that value or NULL with an error; PyList_Append appends the item at the end (taking its own reference) and returns 0, or returns -1 with an error and the list unchanged; Py_XDECREF(NULL) is a no-op')
-    add_native_functions(rep, ('Memory_run', 'build_run_result'), 'the glue around the loops: the ring is a fresh allocation of exactly last_ops_length (> 0) elements; the SAME ring, length and the loop\'s own ring_writes reach last_ops_ring_to_list on the normal path (through build_run_result) and on the exception path (last_run_last_ops), so its precondition (ring content invariant) holds at each call; cause and op count reported are the loop\'s; the ring is released exactly once on every path')
+    add_native_functions(rep, ('Memory_get_last_ops',), 'the last_run_last_ops attribute read by _run_native on its exception path: the kept list with one new reference, or a new empty list; the kept list stays')
+    add_native_functions(rep, ('Memory_run', 'build_run_result'), 'no list of a previous run survives a run (Py_CLEAR before the loops); the glue around the loops: the ring is a fresh allocation of exactly last_ops_length (> 0) elements; the SAME ring, length and the loop\'s own ring_writes reach last_ops_ring_to_list on the normal path (through build_run_result) and on the exception path (last_run_last_ops), so its precondition (ring content invariant) holds at each call; cause and op count reported are the loop\'s; the ring is released exactly once on every path')
     rep.assume('ring lemma: fewer than 2^64 - 1 ops are executed in one run (the 64-bit ring_writes counter does not wrap); the induction over the ops of a run (fresh ring => Inv; each op\'s store preserves Inv) is the loop contract assumed at the call of run_generic_loop in Memory_run - its base and step are the discharged ring_lemma obligations and unit_loop\'s per-op store (the latter discharged in the thorough tiers of C07/C11 only, by unit_loop(run_paged_loop_impl, w, 1))')
     add_native_functions(rep, ('run_generic_loop',), 'the width dispatch between Memory_run and the loop clones, w in {8,16,32,64}: object, callbacks, start ip and out-parameters unchanged; (width, ww) are the object\'s; ring -> (that ring, its length, with_ring=1), no ring -> (NULL, 0, with_ring=0); returns the clone\'s cause (the default: branch for a non-standard width is not explored: Memory_init admits only these widths - assumed)')
     rep.assume('[A] Memory_run unit: PyArg_ParseTupleAndKeywords fills the five out-parameters or fails; mem_decide_storage returns 0 or -1 with an error; calloc returns NULL or a zeroed block of n*size bytes; PyErr_Fetch/Restore/Clear do not touch the ring; getenv("FLIPJUMP_MEASURE_SPECULATION") is modelled as unset (the run_measured_loop branch, which has no ring, is not explored); Py_BuildValue("iKNNd", ...) builds the tuple of its arguments')
